@@ -166,6 +166,8 @@ def run_job(job: dict) -> dict:
                 full = dict(entry["kwargs"]); full.update(job.get("cfg", {})); o.set_config_parameters(full); cfg = o.configuration
             if snaps is not None: del snaps[:]                # snapshots of earlier runs on this instance do not count
             res = o.optimize(task, **kw)
+        if job.get("privates"):
+            obs["privates"] = {nm_: int(getattr(o, f"_{job['opt']}{nm_}")) for nm_ in job["privates"]}
         obs["ok"] = True
         obs["evolution"] = [[(a.position, a.cost, a.fitness) for a in p.agents] for p in res.evolution]
         obs["rates"] = [float(x) for x in res.rates]
